@@ -24,7 +24,9 @@ let parse_listing f =
   match String.split_on_char '\x1f' (dec_bytes f) with
   | [] -> failwith "empty listing"
   | d :: es ->
-    (d, List.map (fun e -> (str_of_bytes (String.sub e 1 (String.length e - 1)), e.[0] = 'd')) es)
+    (d, List.map (fun e -> (str_of_bytes (String.sub e 1 (String.length e - 1)),
+                            (match e.[0] with 'd' -> EDir | 'f' -> EFile | 'D' -> ELinkDir | 'F' -> ELinkFile
+                                            | 'x' -> ELinkDangling | _ -> failwith "bad entry kind"))) es)
 
 let mk_fs fields =
   let ls = List.map parse_listing fields in
